@@ -1,6 +1,8 @@
 package props
 
 import (
+	"bytes"
+	"encoding/hex"
 	"encoding/json"
 	"fmt"
 	"math/big"
@@ -107,12 +109,53 @@ func mkNet(base net.IP, prefix int, mapped bool) net.IPNet {
 }
 
 type c19Case struct {
-	What   string `json:"what"` // addr | net | cert-san | cert-cn | cert-nc
+	What   string `json:"what"` // addr | net | net-mask | cert-san | cert-cn | cert-nc
 	IP     string `json:"ip,omitempty"`
+	Mask   string `json:"mask,omitempty"` // net-mask: the mask bytes in hex (4 or 16), any bit pattern
 	Prefix int    `json:"prefix,omitempty"`
 	Mapped bool   `json:"mapped,omitempty"`
 	DER    []byte `json:"der,omitempty"`
 	Base   string `json:"base,omitempty"`
+}
+
+// maskWitness: a member of the network (base, mask) - any mask - that lies in a model block, if there is one:
+// inside a block the leading bits are the block's, so a member exists iff no masked bit among them disagrees with
+// the base; the remaining bits follow the base where masked and are zero elsewhere.
+func maskWitness(base net.IP, mask []byte) (net.IP, string, bool) {
+	for _, b := range modelBlocks {
+		_, bn, err := net.ParseCIDR(b.CIDR)
+		if err != nil {
+			continue
+		}
+		bip := bn.IP.To4()
+		if len(base) == 16 {
+			if bip != nil {
+				continue // (IPv4 blocks in 16-byte form are judged through the mapped spelling of the 4-byte case)
+			}
+			bip = bn.IP.To16()
+		} else if bip == nil {
+			continue
+		}
+		ones, _ := bn.Mask.Size()
+		w := make(net.IP, len(base))
+		ok := true
+		for i := 0; i < len(base)*8 && ok; i++ {
+			bit := byte(0x80 >> uint(i%8))
+			switch {
+			case i < ones:
+				if mask[i/8]&bit != 0 && (base[i/8]^bip[i/8])&bit != 0 {
+					ok = false
+				}
+				w[i/8] |= bip[i/8] & bit
+			case mask[i/8]&bit != 0:
+				w[i/8] |= base[i/8] & bit
+			}
+		}
+		if ok {
+			return w, b.Name, true
+		}
+	}
+	return nil, "", false
 }
 
 func netSig(ip net.IP, prefix int) string {
@@ -220,6 +263,52 @@ func judgeC19Inner(rec *stats.Rec, c c19Case) (string, string) {
 			for p := c.Prefix - 1; p >= 0; p-- {
 				if !util.IntersectsIANAReserved(mkNet(ip, p, c.Mapped)) {
 					return "monotonic|" + netSig(ip, p), fmt.Sprintf("%s intersects reserved space but its super-net %s does not", netSig(ip, c.Prefix), netSig(ip, p))
+				}
+			}
+		}
+	case "net-mask":
+		// a network given as (address, mask) with an arbitrary mask - what a name constraint carries is two byte
+		// strings, and nothing makes the mask a prefix. It contains x iff x AND mask == address AND mask.
+		ip := net.ParseIP(c.IP)
+		mask, err := hex.DecodeString(c.Mask)
+		if ip == nil || err != nil {
+			return "", ""
+		}
+		base := ip.To16()
+		if len(mask) == 4 {
+			base = ip.To4()
+		}
+		if base == nil || len(base) != len(mask) {
+			return "", ""
+		}
+		nw := net.IPNet{IP: append(net.IP{}, base...), Mask: net.IPMask(mask)}
+		got := util.IntersectsIANAReserved(nw)
+		if w, name, has := maskWitness(base, mask); has {
+			rec.Class("mask_contains_reserved")
+			if !nw.Contains(w) {
+				return "", "" // the model's witness must be a member by Go's own reading too; otherwise not judged
+			}
+			if !got {
+				return "contains-reserved|mask", fmt.Sprintf("network %s mask %s contains %s (%s) but IntersectsIANAReserved says false", base, c.Mask, w, name)
+			}
+		}
+		// the 4-byte network and its IPv4-mapped spelling agree
+		if len(mask) == 4 {
+			m16 := append(bytes.Repeat([]byte{0xff}, 12), mask...)
+			if other := util.IntersectsIANAReserved(net.IPNet{IP: net.IP(base).To16(), Mask: net.IPMask(m16)}); other != got {
+				return "form|mask", fmt.Sprintf("network %s mask %s intersects=%v in 4-byte form and %v in IPv4-mapped form", base, c.Mask, got, other)
+			}
+		}
+		// a wider network (one more mask bit cleared) still intersects
+		if got {
+			for i := 0; i < len(mask)*8; i++ {
+				if mask[i/8]&(0x80>>uint(i%8)) == 0 {
+					continue
+				}
+				m2 := append([]byte{}, mask...)
+				m2[i/8] &^= 0x80 >> uint(i%8)
+				if !util.IntersectsIANAReserved(net.IPNet{IP: append(net.IP{}, base...), Mask: net.IPMask(m2)}) {
+					return "monotonic|mask", fmt.Sprintf("network %s mask %s intersects reserved space but the wider network with mask %x does not", base, c.Mask, m2)
 				}
 			}
 		}
@@ -434,6 +523,91 @@ func TestC19(t *testing.T) {
 			rec.NT(stats.HashS("in", ip.String()))
 		}
 	})
+	// masks that are not prefixes (enumerated): every public anchor x every model block of its family - the mask keeps
+	// every bit on which anchor and block agree, so the network has the public anchor as its address and reaches into the
+	// block; and every single hole in a host mask around each anchor
+	{
+		k := 0
+		for _, a := range publicAnchors {
+			aip := net.ParseIP(a)
+			base := aip.To4()
+			if base == nil {
+				base = aip.To16()
+			}
+			for _, b := range modelBlocks {
+				_, bn, _ := net.ParseCIDR(b.CIDR)
+				bip := bn.IP.To4()
+				if len(base) == 16 {
+					bip = bn.IP.To16()
+					if bn.IP.To4() != nil {
+						continue
+					}
+				}
+				if bip == nil || len(bip) != len(base) {
+					continue
+				}
+				ones, _ := bn.Mask.Size()
+				for variant := 0; variant < 3; variant++ {
+					k++
+					if !stats.Mine(k) {
+						continue
+					}
+					mask := bytes.Repeat([]byte{0xff}, len(base))
+					for i := 0; i < ones; i++ {
+						bit := byte(0x80 >> uint(i%8))
+						if (base[i/8]^bip[i/8])&bit != 0 {
+							mask[i/8] &^= bit
+						}
+					}
+					switch variant {
+					case 1: // host part open as well
+						for i := ones; i < len(base)*8; i++ {
+							mask[i/8] &^= 0x80 >> uint(i%8)
+						}
+					case 2: // every other host bit open
+						for i := ones; i < len(base)*8; i += 2 {
+							mask[i/8] &^= 0x80 >> uint(i%8)
+						}
+					}
+					c := c19Case{What: "net-mask", IP: a, Mask: hex.EncodeToString(mask)}
+					rec.Eval()
+					rec.NT(stats.HashS("mask", a, b.Name, fmt.Sprint(variant)))
+					if sig, msg := judgeC19(rec, c); msg != "" {
+						if rec.Report("c19", sig, msg, c) {
+							t.Fatalf("c19 %s mask %x: %s: %s", a, mask, sig, msg)
+						}
+					}
+				}
+			}
+		}
+	}
+	rapidRun(t, "masks", perShard(stats.Scale(20000, 800000)), func(rt *rapid.T) {
+		ip := drawIP(rt)
+		base := ip.To4()
+		if base == nil || (len(ip) == 16 && rapid.Bool().Draw(rt, "as16")) {
+			base = ip.To16()
+		}
+		mask := make([]byte, len(base))
+		switch rapid.IntRange(0, 2).Draw(rt, "maskkind") {
+		case 0: // a prefix mask with a few holes
+			copy(mask, net.CIDRMask(rapid.IntRange(0, len(base)*8).Draw(rt, "prefix"), len(base)*8))
+			for i, n := 0, rapid.IntRange(1, 4).Draw(rt, "holes"); i < n; i++ {
+				h := rapid.IntRange(0, len(base)*8-1).Draw(rt, "hole")
+				mask[h/8] ^= 0x80 >> uint(h%8)
+			}
+		case 1: // whole octets
+			for i := range mask {
+				mask[i] = rapid.SampledFrom([]byte{0, 0xff, 0xff}).Draw(rt, "octet")
+			}
+		default:
+			copy(mask, rapid.SliceOfN(rapid.Byte(), len(base), len(base)).Draw(rt, "maskbytes"))
+		}
+		c := c19Case{What: "net-mask", IP: net.IP(base).String(), Mask: hex.EncodeToString(mask)}
+		rec.Eval()
+		if sig, msg := judgeC19(rec, c); msg != "" {
+			fail(rt, rec, "c19", sig, msg, c)
+		}
+	})
 	// certificate level
 	hm := homeObjects()
 	co := gen.LoadCorpus()
@@ -489,6 +663,14 @@ func TestC19(t *testing.T) {
 						nw.IP = append(net.IP{}, v4...)
 					} else if len(nw.IP) == 16 {
 						nw.IP = append(net.IP{}, ip.To16()...)
+					}
+				}
+				if rapid.IntRange(0, 3).Draw(rt, "maskholes") == 0 {
+					// a mask that is not a prefix: the extension carries the bytes as they are
+					nw.Mask = append(net.IPMask{}, nw.Mask...)
+					for j, nh := 0, rapid.IntRange(1, 3).Draw(rt, "nholes"); j < nh; j++ {
+						h := rapid.IntRange(0, len(nw.Mask)*8-1).Draw(rt, "holeat")
+						nw.Mask[h/8] ^= 0x80 >> uint(h%8)
 					}
 				}
 				subtrees = append(subtrees, dt.Seq(gen.GNIP(append(append([]byte{}, nw.IP...), nw.Mask...))))
